@@ -30,6 +30,7 @@ import (
 	"github.com/vicanso/pike/upstream"
 
 	"pikemc/vsched"
+	"pikemc/vtime"
 )
 
 const (
@@ -90,6 +91,7 @@ type Result struct {
 	ClockBegin int64 // virtual clock when the request began / ended (scheduler runs only)
 	ClockEnd   int64
 	Panic      string
+	Blocked    string // non-empty: the request never completed (what it waits for); Status is 0 then
 }
 
 type Env struct {
@@ -316,8 +318,36 @@ type Req struct {
 	Rid    string
 }
 
-// Do runs one request through the real handler chain.
+// Do runs one request through the real handler chain. Outside a scheduler run the request is executed as
+// a guarded single-thread scheduler run, so a request that blocks forever comes back (Blocked set) instead
+// of hanging the harness.
 func (e *Env) Do(r Req) *Result {
+	if vsched.Cur() >= 0 {
+		return e.do(r)
+	}
+	var res *Result
+	w := vsched.Guarded(vtime.Get(), func() { res = e.do(r) })
+	if w != "" || res == nil {
+		if res == nil {
+			res = &Result{Rid: r.Rid, Method: r.Method, Host: r.Host, URI: r.URI}
+			if res.Method == "" {
+				res.Method = "GET"
+			}
+			if res.Host == "" {
+				res.Host = "a.com"
+			}
+		}
+		res.Blocked = w
+		if res.Blocked == "" {
+			res.Blocked = "blocked"
+		}
+		res.End = vsched.Step()
+		e.Log(Event{Step: res.End, Kind: "req-end", Res: res})
+	}
+	return res
+}
+
+func (e *Env) do(r Req) *Result {
 	if r.Method == "" {
 		r.Method = "GET"
 	}
